@@ -150,3 +150,69 @@ def pages(tier, seed):
 
 replay_page = e2e_pages.replay_page
 BOUNDED = [invalid_text, pages]
+
+
+def refusal(tier, seed):
+    """`db create` / `db reindex` refuse a broken page unless it is whitelisted (histories of whitelists and page names)."""
+    from checks.zdirlab import Lab
+
+    GOOD = "# Good\n\n- 240101#AA fine\n"
+    BAD = "# Bad\n\n- 240101#AB fine so far\n- broken [[ \n- 240101#AC after the error\n"
+    fails, evals = [], 0
+    rng = random.Random(seed)
+    name_sets = [("day_log.zo", "log.zo"), ("work/a.zo", "a.zo"), ("notes_old.zo", "notes.zo"), ("x.zo", "y.zo"), ("ab.zo", "b.zo")]
+    for first, second in name_sets:
+        for mode in ("create", "reindex"):
+            evals += 1
+            with Lab() as lab:
+                lab.write("good.zo", GOOD)
+                lab.write(first, BAD)
+                # 1. a broken page that is not whitelisted is refused
+                try:
+                    lab.create()
+                    fails.append({"text": first, "error": f"db create accepted the broken, non-whitelisted page {first}"})
+                    continue
+                except RuntimeError:
+                    pass
+                except Exception as e:
+                    fails.append({"text": first, "error": f"db create raised {type(e).__name__} instead of refusing: {str(e)[:100]}"})
+                    continue
+                # 2. explicitly whitelisting it is accepted and recorded
+                try:
+                    lab.create(update_whitelist=True)
+                except Exception as e:
+                    fails.append({"text": first, "error": f"db create --update-error-file-whitelist raised {type(e).__name__}: {str(e)[:100]}"})
+                    continue
+                wl = (lab.zdir / ".zorg" / "error_file_whitelist.txt").read_text().split("\n")
+                if wl != [first]:
+                    fails.append({"text": first, "error": f"whitelist is {wl}, expected [{first!r}]"})
+                    continue
+                # 3. another broken page (whose path is contained in the whitelisted one's) is still refused
+                lab.write(second, BAD.replace("#A", "#B"))
+                try:
+                    (lab.create() if mode == "create" else lab.reindex())
+                    fails.append({"text": second, "error": f"db {mode} accepted the broken page {second} (only {first} is whitelisted)"})
+                    continue
+                except RuntimeError:
+                    pass
+                except Exception as e:
+                    fails.append({"text": second, "error": f"db {mode} raised {type(e).__name__} instead of refusing: {str(e)[:100]}"})
+                    continue
+                wl = (lab.zdir / ".zorg" / "error_file_whitelist.txt").read_text().split("\n")
+                if second in wl:
+                    fails.append({"text": second, "error": f"{second} was added to the whitelist without being asked: {wl}"})
+                # 4. repairing the whitelisted page takes it off the list
+                (lab.zdir / second).unlink()
+                lab.write(first, GOOD.replace("#AA", "#AD"))
+                try:
+                    lab.create()
+                    wl = [x for x in (lab.zdir / ".zorg" / "error_file_whitelist.txt").read_text().split("\n") if x]
+                    if wl:
+                        fails.append({"text": first, "error": f"repaired page still whitelisted: {wl}"})
+                except Exception as e:
+                    fails.append({"text": first, "error": f"db create after the repair raised {type(e).__name__}: {str(e)[:100]}"})
+    return {"name": "refusal_logic", "bound": f"{len(name_sets)} pairs of page names (incl. names contained in one another) x create / reindex: refuse, whitelist, second broken page, repair",
+            "evaluations": evals, "distinct_nontrivial": evals, "failures": fails, "samples": [{"names": list(name_sets[0])}], "replay_fn": "replay_text"}
+
+
+BOUNDED = [invalid_text, pages, refusal]
